@@ -20,7 +20,7 @@ def sh(cmd, cwd=None, env=None, timeout=3600):
 
 
 def confirm(name, src, patch):
-    pid = name.split("-")[0]
+    pid = name.split("-")[0].rstrip("b")
     wt = "/tmp/seedchk/%s" % name
     bd = "/tmp/seedchk/build-%s" % name
     shutil.rmtree(bd, ignore_errors=True)
@@ -69,6 +69,8 @@ def main():
     only = sys.argv[1:]
     if only:
         todo = [t for t in todo if t[0] in only or t[0].split("-")[0] in only]
+    else:
+        todo = [t for t in todo if not os.path.exists(os.path.join(VERIF, "seeded", t[0], "meta.json"))]
     os.makedirs("/tmp/seedchk", exist_ok=True)
     with ThreadPoolExecutor(max_workers=4) as ex:
         futs = {ex.submit(confirm, *t): t for t in todo}
